@@ -67,7 +67,7 @@ claim("C12", "DESIGN.md §5 C12",
       "Lean 4 invariant proof over every successful sequence of MIRP helper calls (arc kinds, alternation, timing filter), load alternation along every depot path by induction, exit arcs, arc data of travel arcs, exactness of the arc set for the standard helper order (no other arcs / all of them / one dummy per eligible demand visit) + full-graph correspondence and kind/arc-set oracle",
       "Proved for every successful build (any order/number of helper calls, positive cargo size, distinct port names): depot arcs lead only to loading nodes, non-depot arcs alternate loading/discharging, every stored arc passes the timing filter; "
       "along every depot path the load is size after a loading node and 0 after a discharging node; every regular node gets an exit arc and arcs are never removed; travel arcs carry distance/speed and distance*unit+destination fee. "
-      "For the standard order (ports, travel, exit, entry — the order of mirp_g1 and of the random generator) the arc set is exactly the specified one (Props/C12b: arcs_sound, arcs_complete, arcs_complete_toDummy, entry_via_dummy, dummy_degree, with ports_build_facts discharging the hypotheses for every successful port declaration sequence). "
+      "For the standard order (ports, travel, exit, entry — the order of mirp_g1 and of the random generator) the arc set is exactly the specified one (Props/C12b: arcs_sound, arcs_complete, arcs_complete_toDummy, entry_via_dummy, dummy_degree, with ports_build_facts discharging the hypotheses for every successful port declaration sequence). Every other order of the three closing calls fails in the same cases and yields the same nodes, the same arc keys and the same stored arcs (Props/C12c: finish_order_independent), so soundness and completeness hold for all six orders (arcs_sound_any_order, arcs_complete_any_order). "
       "The complete arc dictionary and node list are compared with the code; the exactly-specified arc set is re-derived independently (also on G1 and random-generator instances).",
       "Exactness of the arc set for permuted orders of the three closing helper calls rests on the oracle (proved for the standard order).")
 claim("C18", "DESIGN.md §5 C18",
